@@ -25,10 +25,14 @@ structure Inv (sizeT : Nat) (b : ABufV) : Prop where
 theorem pure_inj {α : Type} {a b : α} (h : (pure a : Exec α) = pure b) : a = b := by
   cases h; rfl
 
+/-- a buffer that exists was allocatable -/
+theorem Inv.fits {s : Nat} {b : ABufV} (h : Inv s b) : Hand.fits s b.hdr.len :=
+  ((C16.zeroed_ok_iff s b.hdr.len).mp ⟨_, h.hdr⟩).2.2
+
 theorem Inv.hdr_eq {s : Nat} {b : ABufV} (h : Inv s b) :
     b.hdr = { len := b.hdr.len, allocatedSize := allocOf s b.hdr.len, numChunks := b.hdr.len / (64 / s) + 1 } := by
   have := h.hdr
-  rw [C16.zeroed_eq s b.hdr.len h.pos h.dvd] at this
+  rw [C16.zeroed_eq s b.hdr.len h.pos h.dvd h.fits] at this
   exact (pure_inj this).symm
 
 theorem Inv.alloc {s : Nat} {b : ABufV} (h : Inv s b) : b.hdr.allocatedSize = allocOf s b.hdr.len := by
@@ -37,7 +41,7 @@ theorem Inv.alloc {s : Nat} {b : ABufV} (h : Inv s b) : b.hdr.allocatedSize = al
 
 /-- the views lie inside the allocation -/
 theorem Inv.viewOk {s : Nat} {b : ABufV} (h : Inv s b) : b.viewOk = true := by
-  obtain ⟨b', hb', _, hle, _, _, _⟩ := C16.zeroed_sizes s b.hdr.len h.pos h.dvd
+  obtain ⟨b', hb', _, hle, _, _, _⟩ := C16.zeroed_sizes s b.hdr.len h.pos h.dvd h.fits
   have e : b' = b.hdr := pure_inj (hb'.symm.trans h.hdr)
   subst e
   unfold ABufV.viewOk
@@ -108,10 +112,10 @@ theorem Inv.setElem {s : Nat} {b : ABufV} (h : Inv s b) (i : Nat) (v : List Nat)
   ⟨h.size, h.pos, h.dvd, h.hdr, h.store⟩
 
 /-- a fresh buffer: invariant, and every element zero -/
-theorem zeroedV_spec (s len : Nat) (h0 : s ≠ 0) (h1 : 64 % s = 0) :
+theorem zeroedV_spec (s len : Nat) (h0 : s ≠ 0) (h1 : 64 % s = 0) (hf : Hand.fits s len) :
     ∃ b, zeroedV s len = .ok b ∧ Inv s b ∧ b.hdr.len = len ∧ b.hdr.allocatedSize = allocOf s len
       ∧ abs b = List.replicate len (List.replicate s 0) := by
-  have hz := C16.zeroed_eq s len h0 h1
+  have hz := C16.zeroed_eq s len h0 h1 hf
   refine ⟨{ sizeT := s, hdr := { len := len, allocatedSize := allocOf s len, numChunks := len / (64 / s) + 1 },
             store := ⟨(len / (64 / s) + 1) * chunkBytes, fun _ => 0⟩ }, ?_, ?_, rfl, rfl, ?_⟩
   · unfold zeroedV
@@ -127,7 +131,7 @@ theorem zeroedV_spec (s len : Nat) (h0 : s ≠ 0) (h1 : 64 % s = 0) :
       · intro t _ _
         simp
 
-theorem zeroedV_panics (s len : Nat) (h : ¬ (s ≠ 0 ∧ 64 % s = 0)) : zeroedV s len = .error Fault.panic := by
+theorem zeroedV_panics (s len : Nat) (h : ¬ (s ≠ 0 ∧ 64 % s = 0 ∧ Hand.fits s len)) : zeroedV s len = .error Fault.panic := by
   unfold zeroedV
   rw [C16.zeroed_panics_otherwise s len h]; rfl
 
@@ -186,8 +190,8 @@ theorem step_refines (s : Nat) (h : List ABufV) (hinv : ∀ b ∈ h, Inv s b) (o
     ∧ (∀ b ∈ (step s h op).1, Inv s b) := by
   cases op with
   | zeroed len =>
-    by_cases hs : s ≠ 0 ∧ 64 % s = 0
-    · obtain ⟨b, hb, hi, hl, ha, habs⟩ := zeroedV_spec s len hs.1 hs.2
+    by_cases hs : s ≠ 0 ∧ 64 % s = 0 ∧ Hand.fits s len
+    · obtain ⟨b, hb, hi, hl, ha, habs⟩ := zeroedV_spec s len hs.1 hs.2.1 hs.2.2
       simp only [step, specStep, hb, if_pos hs, hl, ha, List.map_append, List.map_cons, List.map_nil, habs]
       exact ⟨trivial, trivial, mem_append_inv hinv b hi⟩
     · simp only [step, specStep, zeroedV_panics s len hs, if_neg hs]
